@@ -26,9 +26,10 @@ type c10Case struct {
 	ChunkSeed   uint64 `json:"chunk_seed"`
 	Consumer    string `json:"consumer"` // eager | slow | bursty
 	Procs       int    `json:"procs"`
-	Trailing    int    `json:"trailing"` // bytes of an incomplete extra frame appended after the complete ones (0 = none)
-	FailAt      int    `json:"fail_at"`  // -1: connection stays open; -2: fails right after the last byte; k >= 0: fails after byte k
-	FailErr     string `json:"fail_err"` // eof | unexpected | reset
+	Undecodable int    `json:"undecodable"` // every n-th frame is a well-formed message of a kind the library has no decoder for (0 = none)
+	Trailing    int    `json:"trailing"`    // bytes of an incomplete extra frame appended after the complete ones (0 = none)
+	FailAt      int    `json:"fail_at"`     // -1: connection stays open; -2: fails right after the last byte; k >= 0: fails after byte k
+	FailErr     string `json:"fail_err"`    // eof | unexpected | reset
 	ReadYield   int    `json:"read_yield"`
 	ParseBefore int    `json:"parse_before"`
 	ParseAfter  int    `json:"parse_after"`
@@ -88,6 +89,9 @@ func c10Gen(tier string, seed uint64, i int) any {
 			c.FailAt = (i / 10) % 64
 		}
 	}
+	if i%4 == 2 {
+		c.Undecodable = r.Pick(2, 5, 9, 40)
+	}
 	c.ReadYield = r.Pick(0, 0, 1, 3)
 	c.ParseBefore = r.Pick(0, 0, 1, 5)
 	c.ParseAfter = r.Pick(0, 0, 1, 5)
@@ -95,10 +99,53 @@ func c10Gen(tier string, seed uint64, i int) any {
 }
 
 // c10Frames builds the frames of a case: conformant switch messages with xid = index+1 that the parser accepts.
+// undecodableFrame: a conformant OpenFlow 1.3 message of a kind the library does not decode (table-mod, role request,
+// meter-mod, get-async request, queue-get-config request).
+func undecodableFrame(r *prng.R, xid uint32) []byte {
+	var b []byte
+	switch r.Intn(5) {
+	case 0: // ofp_table_mod
+		b = append([]byte{4, 17, 0, 16, 0, 0, 0, 0}, r.U8(), 0, 0, 0, 0, 0, 0, 3)
+	case 1: // ofp_role_request
+		b = append([]byte{4, 24, 0, 24, 0, 0, 0, 0}, 0, 0, 0, byte(r.Intn(4)), 0, 0, 0, 0)
+		b = append(b, r.Bytes(8)...)
+	case 2: // ofp_meter_mod with one drop band
+		b = append([]byte{4, 29, 0, 32, 0, 0, 0, 0}, 0, 0, 0, 1, 0, 0, 0, byte(1+r.Intn(200)))
+		b = append(b, 0, 1, 0, 16)
+		b = append(b, r.Bytes(8)...)
+		b = append(b, 0, 0, 0, 0)
+	case 3: // get-async request
+		b = []byte{4, 26, 0, 8, 0, 0, 0, 0}
+	default: // ofp_queue_get_config_request
+		b = append([]byte{4, 22, 0, 16, 0, 0, 0, 0}, 0, 0, 0, byte(1+r.Intn(50)), 0, 0, 0, 0)
+	}
+	binary.BigEndian.PutUint32(b[4:], xid)
+	return b
+}
+
 func c10Frames(cs *c10Case, c *fw.Ctx) (frames [][]byte, dumps []uint64, texts []string) {
 	r := prng.New(cs.FrameSeed)
 	kindsSmall := []string{"echo_request", "echo_reply", "barrier_reply", "hello", "get_config_reply", "features_reply", "error", "port_status"}
 	for j := 0; j < cs.Frames; j++ {
+		if cs.Undecodable > 0 && j%cs.Undecodable == cs.Undecodable-1 {
+			u := undecodableFrame(r, uint32(j+1))
+			rejected := true
+			fw.Recover(func() {
+				if msg, err := of.Parse(append([]byte(nil), u...)); err == nil && !isNil(msg) {
+					rejected = false // the library learnt this kind: treat it like any other frame
+					h, t := dumpHash(msg)
+					dumps = append(dumps, h)
+					texts = append(texts, t)
+				}
+			})
+			if rejected {
+				dumps = append(dumps, 0) // 0 marks a frame for which no message is demanded
+				texts = append(texts, "(undecodable kind)")
+				c.Count("frames_undecodable_kind", 1)
+			}
+			frames = append(frames, u)
+			continue
+		}
 		var kind string
 		switch cs.Profile {
 		case "small":
@@ -276,16 +323,25 @@ func c10Eval(c *fw.Ctx, data any) {
 		return reads[i].t, true
 	}
 	byDump := map[uint64]int{}
+	undecodable := 0
 	for j, h := range dumps {
+		if h == 0 {
+			undecodable++
+			continue
+		}
 		byDump[h] = j
 	}
+	nils := 0
 	seen := make([]int, len(frames))
 	var order []int
 	inOrder := true
 	last := -1
 	for _, d := range s.delivered {
 		if d.Nil {
-			viol("corrupt", "nil-message", "a nil message was delivered although every frame on the connection is well-formed")
+			nils++
+			if nils == undecodable+1 {
+				viol("corrupt", "nil-message", fmt.Sprintf("%d nil messages were delivered although only %d frames on the connection are of a kind the parser rejects", nils, undecodable))
+			}
 			continue
 		}
 		j, ok := byDump[d.Dump]
@@ -323,7 +379,7 @@ func c10Eval(c *fw.Ctx, data any) {
 		lost := 0
 		first := -1
 		for j := range frames {
-			if seen[j] == 0 {
+			if seen[j] == 0 && dumps[j] != 0 {
 				lost++
 				if first < 0 {
 					first = j
